@@ -64,7 +64,7 @@ def pmap(fn, items, workers=None):
         return list(ex.map(fn, items))
 
 
-def run(cmd, stdin=None, timeout=TIMEOUT, env=None, cwd=None, stdin_file=None):
+def run(cmd, stdin=None, timeout=TIMEOUT, env=None, cwd=None, stdin_file=None, _second=False):
     """returns (rc, stdout, stderr, timed_out)"""
     e = dict(os.environ)
     e.pop("RUST_BACKTRACE", None)
@@ -78,6 +78,9 @@ def run(cmd, stdin=None, timeout=TIMEOUT, env=None, cwd=None, stdin_file=None):
             p = subprocess.run(cmd, input=stdin, stdout=subprocess.PIPE, stderr=subprocess.PIPE, timeout=timeout, env=e, cwd=cwd)
         return p.returncode, p.stdout, p.stderr, False
     except subprocess.TimeoutExpired as ex:
+        if timeout is not None and timeout < 200 and not _second:
+            # whether a run "does not end" must not depend on how busy the machine is: once more, with ten times the limit
+            return run(cmd, stdin=stdin, timeout=10 * timeout, env=env, cwd=cwd, stdin_file=stdin_file, _second=True)
         return -9, ex.stdout or b"", ex.stderr or b"", True
 
 
@@ -1270,9 +1273,17 @@ def c16_check(variant, recs, t, wd, final_newline=True):
     # display is really drawn
     tty = (len(data) + t) % 4 == 1
     rc, so, err, to = cli(args, stdin=stdin, cwd=cwd, env=env, tty=tty)
+    if to:
+        # "no exit" must not be a matter of how busy the machine is: the case is run once more with a long limit
+        # before it is called a hang
+        if os.path.isdir(out):
+            shutil.rmtree(out, ignore_errors=True)
+        elif os.path.exists(out):
+            os.remove(out)
+        rc, so, err, to = cli(args, stdin=stdin, cwd=cwd, env=env, tty=tty, timeout=600)
     cmdline = ("RAYON_NUM_THREADS=%s " % env["RAYON_NUM_THREADS"] if env else "") + "kmertools " + " ".join(args) + (" [stderr on a terminal]" if tty else "") + (" [run in the directory of the input]" if cwd else "") + (" on records %r" % (recs,) if len(recs) <= 12 else " on %d records %r..." % (len(recs), recs[:6]))
     if to:
-        return ("hang", "%s: no exit within %d s" % (cmdline, TIMEOUT))
+        return ("hang", "%s: no exit within %d s, and none within 600 s when run again" % (cmdline, TIMEOUT))
     has_bad = any(pm.cls(b) is None for r in recs for b in r)
     if name == "cgr" and has_bad:
         # whole-sequence CGR may refuse records with non-nucleotide bytes; it must not hand out coordinates for them
